@@ -6,10 +6,17 @@
 //	aofh file                line-oriented: real AofFile writer/reader on scratch dirs (see verifAofFileMode)
 //	aofh inst <dir> ...      start a full node on <dir> (LoadAndInit), dump the census of holds, optional workload
 //	aofh compact <dir> ...   run a workload on a real node, force rotation + compaction (used under strace)
+//	aofh script <dir> ...    C16: scripted node with a manual clock; compactions parked at a crash point while further
+//	                         requests and compaction triggers arrive (see verifAofScriptMode)
+//
+// Environment: AOFH_MANUAL_CLOCK=1 freezes the LockDB clocks (VerifManualClock): no sweeper goroutines, the census
+// (which prints the re-armed deadline of every hold) is deterministic.
 package server
 
 import (
 	"bufio"
+	"runtime"
+	"sync"
 	"encoding/hex"
 	"fmt"
 	"io/ioutil"
@@ -338,9 +345,9 @@ func verifCensus(slock *SLock) []string {
 					}
 				}
 				for _, l := range holds {
-					res = append(res, fmt.Sprintf("hold db=%d key=%s lockid=%s depth=%d count=%d rcount=%d eflag=%d locked=%d val=%s",
+					res = append(res, fmt.Sprintf("hold db=%d key=%s lockid=%s depth=%d count=%d rcount=%d eflag=%d locked=%d val=%s deadline=%d now=%d",
 						dbi, hex.EncodeToString(m.lockKey[:]), hex.EncodeToString(l.command.LockId[:]), l.locked, l.command.Count, l.command.Rcount,
-						l.command.ExpriedFlag, m.locked, val))
+						l.command.ExpriedFlag, m.locked, val, l.expriedTime, db.currentTime))
 				}
 			}
 			m.glock.LowPriorityUnlock()
@@ -593,6 +600,330 @@ func verifAofCompactMode(args []string) {
 	fmt.Println("dir", verifListDir(dir))
 }
 
+// ---------------------------------------------------------------------------------------------- C16 script mode
+//
+// aofh script <dir> <logfile> <bufsize> <rewritesize> <snapdir> <ref 0|1> <t0> <scriptfile>
+//
+//	Node with a MANUAL clock (DB clocks start at <t0>, `adv n` advances them) on <dir>.  One script line per action:
+//	  L:.. / U:..      request through the real command path (format of verifClient.do)
+//	  adv <n>          advance the DB clocks
+//	  mark             settle (persistence queue drained, buffers flushed), copy the directory to <snapdir>/m<idx>
+//	  thresh <n>       Aof.rewriteSize = n: PushLock itself rotates and requests a compaction (size-threshold path);
+//	                   while n > 0 every request is followed by an implicit mark
+//	  park <point>     the next compaction goroutine reaching verifPoint(<point>) (200..204) is parked there
+//	  trigger          implicit mark; RewriteAofFile(true) under aofGlock (what PushLock / the admin command do), then waits
+//	                   until the spawned rewriteAofFiles goroutine has returned or is parked
+//	  admin            the guard of the admin commands (isRewriting || isWaitRewite => "Already Rewriting"), else = trigger
+//	  resume           implicit mark; releases the parked goroutine and waits for the end of its compaction
+//	  rotate           = trigger + wait for the end of the compaction (nothing parked)
+//	<ref> = 1: reference run of the same history WITHOUT any compaction: thresh/park/trigger/admin/resume/rotate only
+//	place their implicit marks, so mark <idx> of both runs is taken after the same requests.
+//	Crash points: every verifPoint(>=200) copies the directory into <snapdir>/<seq>-<point> and prints
+//	`snap <seq> <point> ref=<mark idx> rewriting=<0|1> wait=<0|1> active=<n>`: <mark idx> is the mark whose history the image
+//	contains (the mark that FOLLOWS for a compaction requested from inside a request, the preceding one otherwise).
+type verifScript struct {
+	mu        sync.Mutex
+	slock     *SLock
+	dir       string
+	snapDir   string
+	ref       bool
+	seq       int
+	marks     int
+	inRequest bool
+	active    int // compaction goroutines between verifPoint(200) and verifPoint(204)
+	entered   int // number of verifPoint(200) hits
+	overlap   int
+	parkPoint int
+	parked    bool
+	parkedCh  chan struct{}
+	resumeCh  chan struct{}
+	events    []string
+	thresh    int
+}
+
+func (v *verifScript) flags() (int, int) {
+	a := v.slock.aof
+	a.glock.Lock()
+	r, w := 0, 0
+	if a.isRewriting {
+		r = 1
+	}
+	if a.isWaitRewite {
+		w = 1
+	}
+	a.glock.Unlock()
+	return r, w
+}
+
+func (v *verifScript) hook(n int) {
+	if n < 200 || v.ref {
+		return
+	}
+	r, w := v.flags()
+	v.mu.Lock()
+	if n == 200 {
+		v.active++
+		v.entered++
+		if v.active > 1 {
+			v.overlap++
+		}
+	}
+	v.seq++
+	ref := v.marks - 1
+	if v.inRequest {
+		ref = v.marks
+	}
+	name := fmt.Sprintf("%03d-%d", v.seq, n)
+	verifCopyDir(v.dir, filepath.Join(v.snapDir, name))
+	v.events = append(v.events, fmt.Sprintf("snap %03d %d ref=%d rewriting=%d wait=%d active=%d cur=%d files=%s", v.seq, n, ref, r, w, v.active, v.slock.aof.aofFileIndex, verifListDir(v.dir)))
+	if n == 204 {
+		v.active--
+	}
+	park := n == v.parkPoint && !v.parked && v.parkedCh != nil
+	var pc, rc chan struct{}
+	if park {
+		v.parked = true
+		v.parkPoint = 0
+		pc, rc = v.parkedCh, v.resumeCh
+	}
+	v.mu.Unlock()
+	if park {
+		close(pc)
+		<-rc
+	}
+}
+
+func (v *verifScript) emit(format string, a ...interface{}) {
+	v.mu.Lock()
+	v.events = append(v.events, fmt.Sprintf(format, a...))
+	v.mu.Unlock()
+}
+
+func (v *verifScript) settle() {
+	for i := 0; i < 3; i++ {
+		_ = v.slock.aof.WaitFlushAofChannel()
+		time.Sleep(2 * time.Millisecond)
+	}
+	_ = v.slock.aof.WaitFlushAofChannel()
+	v.slock.aof.FlushWithLocked()
+}
+
+func (v *verifScript) mark() {
+	v.settle()
+	r, w := v.flags()
+	v.mu.Lock()
+	idx := v.marks
+	v.marks++
+	v.mu.Unlock()
+	verifCopyDir(v.dir, filepath.Join(v.snapDir, fmt.Sprintf("m%03d", idx)))
+	v.emit("mark %d rewriting=%d wait=%d cur=%d goroutines=%d files=%s", idx, r, w, v.slock.aof.aofFileIndex, runtime.NumGoroutine(), verifListDir(v.dir))
+	for _, h := range verifCensus(v.slock) {
+		v.emit("live %d %s", idx, h)
+	}
+}
+
+// waits until the rewriteAofFiles goroutine(s) spawned since <baseline> was taken have returned, or one of them parked
+func (v *verifScript) await(baseline int, entered0 int, wasParked bool) string {
+	deadline := time.Now().Add(20 * time.Second)
+	for time.Now().Before(deadline) {
+		v.mu.Lock()
+		parked, entered := v.parked, v.entered
+		v.mu.Unlock()
+		if runtime.NumGoroutine() <= baseline {
+			if entered > entered0 {
+				return "completed"
+			}
+			return "dropped"
+		}
+		if parked && !wasParked && runtime.NumGoroutine() <= baseline+1 && entered > entered0 {
+			return "parked"
+		}
+		time.Sleep(200 * time.Microsecond)
+	}
+	return "stuck"
+}
+
+func (v *verifScript) trigger(how string) {
+	a := v.slock.aof
+	r0, w0 := v.flags()
+	v.mu.Lock()
+	entered0, wasParked := v.entered, v.parked
+	v.mu.Unlock()
+	baseline := runtime.NumGoroutine()
+	a.aofGlock.Lock()
+	err := a.RewriteAofFile(true)
+	a.aofGlock.Unlock()
+	out := v.await(baseline, entered0, wasParked)
+	r, w := v.flags()
+	v.mu.Lock()
+	ov := v.overlap
+	v.mu.Unlock()
+	v.emit("trigger %s before=%d%d outcome=%s after=%d%d err=%v overlap=%d cur=%d", how, r0, w0, out, r, w, err, ov, a.aofFileIndex)
+}
+
+func verifAofScriptMode(args []string) {
+	dir, logFile, bufSize, rewriteSize, snapDir := args[0], args[1], verifAtoi(args[2]), verifAtoi(args[3]), args[4]
+	ref := args[5] == "1"
+	t0, _ := strconv.ParseInt(args[6], 10, 64)
+	raw, rerr := ioutil.ReadFile(args[7])
+	if rerr != nil {
+		verifDie("script %v", rerr)
+	}
+	_ = os.Chdir(filepath.Dir(logFile))
+	_ = os.MkdirAll(snapDir, 0755)
+	VerifManualClock = true
+	v := &verifScript{dir: dir, snapDir: snapDir, ref: ref}
+	armed := false
+	VerifPointHook = func(n int) {
+		if armed {
+			v.hook(n)
+		}
+	}
+	slock, err := verifStartNode(dir, logFile, bufSize, rewriteSize)
+	if err != nil {
+		fmt.Printf("init err:%s\n", strings.ReplaceAll(err.Error(), " ", "_"))
+		return
+	}
+	v.slock = slock
+	fmt.Println("init ok")
+	_ = slock.aof.WaitFlushAofChannel()
+	time.Sleep(20 * time.Millisecond)
+	_ = slock.aof.WaitRewriteAofFiles()
+	db := slock.GetOrNewDB(0)
+	db.currentTime, db.checkTimeoutTime, db.checkExpriedTime = t0, t0, t0
+	time.Sleep(5 * time.Millisecond)
+	armed = true
+	c := verifNewClient(slock)
+	flushEvents := func() {
+		v.mu.Lock()
+		for _, e := range v.events {
+			fmt.Println(e)
+		}
+		v.events = v.events[:0]
+		v.mu.Unlock()
+	}
+	for _, line := range strings.Split(string(raw), "\n") {
+		t := strings.Fields(line)
+		if len(t) == 0 {
+			continue
+		}
+		fmt.Println("act", line)
+		switch t[0] {
+		case "adv":
+			for _, d := range slock.dbs {
+				if d != nil {
+					d.currentTime += int64(verifAtoi(t[1]))
+				}
+			}
+		case "mark":
+			v.mark()
+		case "thresh":
+			v.thresh = verifAtoi(t[1])
+			if !ref {
+				if v.thresh > 0 {
+					slock.aof.rewriteSize = uint32(v.thresh)
+				} else {
+					slock.aof.rewriteSize = uint32(Config.AofFileRewriteSize)
+				}
+			}
+		case "park":
+			if !ref {
+				v.mu.Lock()
+				v.parkPoint, v.parked = verifAtoi(t[1]), false
+				v.parkedCh, v.resumeCh = make(chan struct{}), make(chan struct{})
+				v.mu.Unlock()
+			}
+		case "trigger", "rotate", "admin":
+			v.mark()
+			if ref {
+				break
+			}
+			if t[0] == "admin" {
+				if r, w := v.flags(); r != 0 || w != 0 {
+					v.emit("admin rejected before=%d%d", r, w)
+					break
+				}
+			}
+			v.trigger(t[0])
+		case "resume":
+			v.mark()
+			if ref {
+				break
+			}
+			v.mu.Lock()
+			rc, was := v.resumeCh, v.parked
+			v.parked, v.parkedCh, v.resumeCh = false, nil, nil
+			v.mu.Unlock()
+			if was && rc != nil {
+				close(rc)
+			}
+			_ = slock.aof.WaitRewriteAofFiles()
+			for i := 0; i < 20000; i++ {
+				v.mu.Lock()
+				act := v.active
+				v.mu.Unlock()
+				r, _ := v.flags()
+				if act == 0 && r == 0 {
+					break
+				}
+				time.Sleep(200 * time.Microsecond)
+			}
+			r, w := v.flags()
+			v.emit("resumed was_parked=%v after=%d%d", was, r, w)
+		default:
+			if strings.Contains(t[0], ":") {
+				if v.thresh > 0 && !ref {
+					v.mu.Lock()
+					entered0, wasParked := v.entered, v.parked
+					v.inRequest = true
+					v.mu.Unlock()
+					baseline := runtime.NumGoroutine()
+					cur0 := slock.aof.aofFileIndex
+					c.do(t[0])
+					v.settle()
+					if slock.aof.aofFileIndex != cur0 {
+						out := v.await(baseline, entered0, wasParked)
+						r, w := v.flags()
+						v.mu.Lock()
+						ov := v.overlap
+						v.mu.Unlock()
+						v.emit("trigger size outcome=%s after=%d%d overlap=%d cur=%d", out, r, w, ov, slock.aof.aofFileIndex)
+					}
+					v.mu.Lock()
+					v.inRequest = false
+					v.mu.Unlock()
+				} else {
+					c.do(t[0])
+				}
+				if v.thresh > 0 {
+					v.mark()
+				}
+			} else {
+				verifDie("unknown script action %q", t[0])
+			}
+		}
+		for _, r := range c.replies {
+			fmt.Println(r)
+		}
+		c.replies = c.replies[:0]
+		flushEvents()
+	}
+	v.mark()
+	flushEvents()
+	v.mu.Lock()
+	stillParked := v.parked
+	v.mu.Unlock()
+	fmt.Printf("end parked=%v overlap=%d entered=%d\n", stillParked, v.overlap, v.entered)
+	if !stillParked {
+		armed = false
+		slock.aof.Close()
+	}
+	fmt.Println("dir", verifListDir(dir))
+	fmt.Println("script-end")
+	os.Stdout.Sync()
+	os.Exit(0)
+}
+
 // aofh loaddir <dir> <now> <bufsize>: what LoadAndInit would hand to the engine for this directory (no node started)
 func verifAofLoadDirMode(args []string) {
 	base, _ := ioutil.TempDir("/tmp", "aof-ld-")
@@ -608,7 +939,12 @@ func VerifAofMain() {
 	if len(os.Args) < 2 {
 		verifDie("usage: aofh file|inst|compact ...")
 	}
+	if os.Getenv("AOFH_MANUAL_CLOCK") == "1" {
+		VerifManualClock = true
+	}
 	switch os.Args[1] {
+	case "script":
+		verifAofScriptMode(os.Args[2:])
 	case "file":
 		verifAofFileMode()
 	case "inst":
